@@ -23,6 +23,19 @@ func bcdEnc(in []byte) M {
 		// nobody else's; whatever that writes into spare capacity must not show in any later result)
 		_ = append(append([]byte{}, (*r)[:0]...), 0) // (keeps vet quiet about the next line's discarded result)
 		_ = append(*r, 0x99, 0x99, 0x99)
+		// ... and so is writing into it: the SAME text encoded again afterwards (a second use of Encode with an argument it has
+		// seen before) is judged like the first - the record carries the later result whenever the two differ
+		first := append([]byte{}, *r...)
+		for i := range *r {
+			(*r)[i] ^= 0xff
+		}
+		if r2, err2 := bcd.Encode(string(in)); err2 != nil || r2 == nil {
+			out = M{"t": "err"}
+			return
+		} else if string(*r2) != string(first) {
+			out = M{"t": "ok", "v": ints(*r2)}
+		}
+		*r = append((*r)[:0], first...)
 		s, err := bcd.Decode(*r)
 		if err != nil {
 			rt = M{"t": "err"}
